@@ -2,6 +2,7 @@ package decl
 
 import (
 	"fmt"
+	"strings"
 )
 
 // Base builds the base shape: provider k provides *Tk and requires *Tj for every j<k with edge (j,k)
@@ -290,6 +291,33 @@ var Variants = []Variant{
 		c.Provs = append(c.Provs, &Prov{ID: len(c.Provs), Kind: Struct, Provides: []string{"*" + s}})
 		return c
 	}},
+	{"struct-apart", func(d *Decl, p int) *Decl {
+		// the struct as a whole is consumed by the first consumer, its fields by the LAST provider (the sink):
+		// the struct and each field need their own completion signal, waited for at different points
+		cs := consumers(d, tname(p))
+		sink := len(d.Provs) - 1
+		if len(cs) == 0 || cs[0].ID == sink || d.Provs[sink].Kind != Func {
+			return nil
+		}
+		c := d.Clone()
+		s := fmt.Sprintf("S%d", p)
+		c.Structs[s] = []Field{{"F0", tname(p)}, {"F1", uname(p)}}
+		c.Provs[p].Provides[0] = "*" + s
+		replaceReq(c.Provs[cs[0].ID], tname(p), "*"+s)
+		q := c.Provs[sink]
+		has := false
+		for _, r := range q.Requires {
+			if r == tname(p) {
+				has = true
+			}
+		}
+		if !has {
+			q.Requires = append(q.Requires, tname(p))
+		}
+		q.Requires = append(q.Requires, uname(p))
+		c.Provs = append(c.Provs, &Prov{ID: len(c.Provs), Kind: Struct, Provides: []string{"*" + s}})
+		return c
+	}},
 	{"struct-async", func(d *Decl, p int) *Decl {
 		c := d.Clone()
 		s := fmt.Sprintf("S%d", p)
@@ -340,6 +368,24 @@ var Presentations = []Variant{
 		c.Order = make([]int, n)
 		for i := range c.Order {
 			c.Order[i] = (i + 1) % n
+		}
+		return c
+	}},
+	{"params-reversed", func(d *Decl, _ int) *Decl {
+		// every provider lists its parameters in the opposite order: the generator discovers the graph breadth-first
+		// in parameter order, so this changes discovery order (and with it pool assignment) but not the graph
+		c := d.Clone()
+		changed := false
+		for _, p := range c.Provs {
+			if len(p.Requires) > 1 {
+				changed = true
+				for i, j := 0, len(p.Requires)-1; i < j; i, j = i+1, j-1 {
+					p.Requires[i], p.Requires[j] = p.Requires[j], p.Requires[i]
+				}
+			}
+		}
+		if !changed {
+			return nil
 		}
 		return c
 	}},
@@ -543,8 +589,8 @@ func Universe(tier string) []*Decl {
 				if n == 4 && bitsSet(a)%2 == 1 && a != 0b0111 {
 					continue // thorough, n=4: half of the Async subsets
 				}
-				if !thorough && n == 3 && bitsSet(a) == 1 {
-					continue // quick: a single Async provider never starts a goroutine
+				if !thorough && n == 3 && bitsSet(a) == 1 && a != 0b001 {
+					continue // quick: of the single-Async masks only "first root Async" (next to a synchronous root it runs in a goroutine)
 				}
 				basesC = append(basesC, Base(n, e, a, 0))
 				all := uint(1)<<n - 1
@@ -567,6 +613,45 @@ func Universe(tier string) []*Decl {
 		for _, v := range Variants {
 			for p := range b.Provs {
 				add(v.Apply(b, p), fmt.Sprintf("%s@%d", v.Name, p))
+			}
+		}
+	}
+	// Block C4: the toggles that add nodes or channels of their own (Struct expansion, multi-value, Bind) at every
+	// ROOT of every all-needed n=4 shape, roots Async (all of them / all but the first / only the toggled one),
+	// the other providers synchronous: field reads and second results then live on a goroutine while their
+	// consumers sit on the caller's thread or on another goroutine.
+	if !thorough {
+		own := map[string]bool{"struct-ptr": true, "struct-split": true, "struct-apart": true, "struct-async": true, "multi-split": true, "bind-half": true, "struct-val": true}
+		for e := uint(0); e < 1<<numEdges(4); e++ {
+			if !allReachable(4, e) || maxInDegree(4, e) > 3 {
+				continue
+			}
+			var rootIdx []int
+			var rootMask uint
+			for k := 0; k < 4; k++ {
+				isRoot := true
+				for j := 0; j < k; j++ {
+					if e&(1<<edgeBit(j, k)) != 0 {
+						isRoot = false
+					}
+				}
+				if isRoot {
+					rootIdx = append(rootIdx, k)
+					rootMask |= 1 << k
+				}
+			}
+			if len(rootIdx) < 2 {
+				continue
+			}
+			for _, p := range rootIdx {
+				for _, a := range []uint{rootMask, rootMask &^ (1 << rootIdx[0]), 1 << p} {
+					b := Base(4, e, a, 0)
+					for _, v := range Variants {
+						if own[v.Name] {
+							add(v.Apply(b, p), fmt.Sprintf("%s@%d", v.Name, p))
+						}
+					}
+				}
 			}
 		}
 	}
@@ -738,6 +823,23 @@ func Universe(tier string) []*Decl {
 							}()
 						}
 					}
+				}
+			}
+		}
+	}
+	// parameter order: the reversed-parameter presentation of every wide (E), C4 and large declaration built so far
+	{
+		var rev Variant
+		for _, v := range Presentations {
+			if v.Name == "params-reversed" {
+				rev = v
+			}
+		}
+		for _, d := range append([]*Decl(nil), out...) {
+			if strings.Contains(d.Note, "wide") || strings.Contains(d.Note, "large") || (len(d.Provs) >= 5 && d.Prelude == "" && strings.Contains(d.Note, "base n=4")) {
+				if r := rev.Apply(d, 0); r != nil {
+					r.Note = d.Note
+					add(r, "params-reversed")
 				}
 			}
 		}
